@@ -76,6 +76,8 @@ pub mod site {
     pub const WS_IDLE_POLL: u32 = 601;
     pub const WS_BEFORE_BALANCE: u32 = 602;
     pub const WS_SUBMIT_AFTER_CHECK: u32 = 610;
+    /// idle poll of worker `i` is reported as `WS_IDLE_POLL_BASE + i`
+    pub const WS_IDLE_POLL_BASE: u32 = 1000;
 }
 
 /// CPU tier a harness may force on `system::get_cpu_features()`.
